@@ -225,6 +225,25 @@ def spare_stream(rng, pid):
     return cases
 
 
+def wrapper_nth_stream(rng, pid):
+    """IMPL-ONLY: std adaptors on top of `values()` / `ids_and_values()` (`nth`, hence `skip` / `step_by`): single-threaded
+    sequences near and across the end of the source, every kind"""
+    cases = []
+    i = 0
+    for kind in ("slice", "vec", "array", "range", "iter", "vecref"):
+        for L in (1, 3, 5, 8):
+            for pre in ([], ["next"], ["chunk 2 all"], ["next", "next", "next"]):
+                for k in (0, 1, 2, 4, 7):
+                    for op in ("vnth", "ivnth"):
+                        c = make_source(rng, "%s-wn%d" % (pid, i), kind, L, hint="exact")
+                        c.threads = [list(pre) + ["%s %d" % (op, k), "next", "%s 0" % op, "hasmore"]]
+                        c.owner = "drop"
+                        c.tags = {"implonly", "nomodel"}
+                        cases.append(c)
+                        i += 1
+    return cases
+
+
 def zst_stream(rng, pid):
     """zero-sized element types: `ptr.add(i) == ptr`, slices of any length occupy no memory"""
     cases = []
@@ -547,7 +566,8 @@ def stream_for0(pid, tier, seed):
     defects = corpus(["defects.cases", "regress.cases"])
     big = tier != "quick"
     if pid in ("C01", "C02", "C04"):
-        return defects + pulls_stream(rng, tier, pid) + half_stream(rng, pid) + nth_stream(rng, pid) + liar_stream(rng, pid) + zst_stream(rng, pid) + pod_stream(rng, pid)
+        return defects + pulls_stream(rng, tier, pid) + half_stream(rng, pid) + nth_stream(rng, pid) + liar_stream(rng, pid) + zst_stream(rng, pid) + pod_stream(rng, pid) + \
+            wrapper_nth_stream(rng, pid)
     if pid == "C03":
         cases = defects + pulls_stream(rng, tier, pid, prof=dict(loops=False, query=False, drain=0.2))
         cases += half_stream(rng, pid) + nth_stream(rng, pid) + liar_stream(rng, pid) + zst_stream(rng, pid) + pod_stream(rng, pid)
